@@ -109,3 +109,82 @@ Proof.
     replace (Z.to_nat 1) with 1%nat by reflexivity. unfold body. cbn [skipn].
     unfold blen. rewrite Nat2Z.id. apply firstn_all.
 Qed.
+
+(* extended encodings: data of 1..65535 bytes, Le 1..65536 *)
+Theorem apdu_roundtrip_extended : forall cla ins p1 p2 data le,
+  0 <= cla < 255 ->
+  blen data <= 65535 -> (match le with Some n => 1 <= n <= 65536 | None => True end) ->
+  (data <> [] \/ le <> None) ->
+  apdu_parse (apdu_build cla ins p1 p2 data le true)
+  = inr {| a_cla := cla; a_ins := ins; a_p1 := p1; a_p2 := p2; a_data := data; a_le := le_val le; a_ext := true |}.
+Proof.
+  intros cla ins p1 p2 data le Hc Hd Hl Hne. unfold apdu_parse, apdu_build.
+  assert (Hcla : (cla =? 255) = false) by (apply Z.eqb_neq; lia).
+  destruct data as [|d0 data]; destruct le as [n|].
+  - (* case 2E *)
+    unfold le_ext. rewrite be2_bytes by (Z.div_mod_to_equations; lia).
+    cbn [app]. rewrite blen_ge4. cbn [nth skipn]. rewrite Hcla. unfold parse_lengths.
+    cbn [blen List.length nth]. change (Z.of_nat 3 =? 0) with false. change (Z.of_nat 3 =? 1) with false.
+    change (Z.of_nat 3 =? 1 + 0) with false. change (Z.of_nat 3 =? 2 + 0) with false. cbn [andb negb].
+    change (0 =? 0) with true. cbn [negb]. change (Z.of_nat 3 <? 3) with false. change (Z.of_nat 3 =? 3) with true.
+    cbv iota. rewrite of_be2. replace (n mod 65536 / 256 * 256 + n mod 65536 mod 256) with (n mod 65536)
+      by (Z.div_mod_to_equations; lia).
+    rewrite rz_mod by lia. reflexivity.
+  - destruct Hne as [Hne|Hne]; contradiction.
+  - (* case 4E *)
+    pose proof (blen_nonneg data).
+    assert (Hdd : 1 <= blen (d0 :: data) <= 65535) by (rewrite blen_cons in *; lia).
+    set (dd := d0 :: data) in *.
+    unfold le_ext. rewrite (be2_bytes (blen dd)) by lia. rewrite (be2_bytes (n mod 65536)) by (Z.div_mod_to_equations; lia).
+    set (lh := blen dd / 256). set (ll := blen dd mod 256). set (eh := n mod 65536 / 256). set (el := n mod 65536 mod 256).
+    change ([cla; ins; p1; p2] ++ [0] ++ [lh; ll] ++ dd ++ [eh; el]) with (cla :: ins :: p1 :: p2 :: 0 :: lh :: ll :: dd ++ [eh; el]).
+    rewrite blen_ge4. cbn [nth skipn]. rewrite Hcla. unfold parse_lengths.
+    set (body := 0 :: lh :: ll :: dd ++ [eh; el]).
+    assert (Hbl : blen body = 5 + blen dd) by (unfold body; rewrite !blen_cons, blen_app; change (blen [eh; el]) with 2; lia).
+    rewrite Hbl. change (nth 0 body 0) with 0. change (nth 1 body 0) with lh. change (nth 2 body 0) with ll.
+    assert (Hw : of_be [lh; ll] = blen dd) by (rewrite of_be2; unfold lh, ll; Z.div_mod_to_equations; lia).
+    rewrite Hw.
+    destruct (5 + blen dd =? 0) eqn:E0; [lia|]. destruct (5 + blen dd =? 1) eqn:E1; [lia|].
+    destruct ((5 + blen dd =? 1 + 0) && negb (0 =? 0)) eqn:E2; [lia|].
+    destruct ((5 + blen dd =? 2 + 0) && negb (0 =? 0)) eqn:E3; [lia|].
+    change (negb (0 =? 0)) with false. cbv iota.
+    destruct (5 + blen dd <? 3) eqn:E4; [lia|]. destruct (5 + blen dd =? 3) eqn:E5; [lia|].
+    destruct (5 + blen dd =? 3 + blen dd) eqn:E6; [lia|]. destruct (5 + blen dd =? 5 + blen dd) eqn:E7; [|lia].
+    f_equal. f_equal.
+    + replace (Z.to_nat 3) with 3%nat by reflexivity. unfold body. cbn [skipn].
+      unfold blen. rewrite Nat2Z.id. apply firstn_exact.
+    + cbn [le_val].
+      assert (N1 : nth (Z.to_nat (5 + blen dd - 2)) body 0 = eh).
+      { unfold body. replace (Z.to_nat (5 + blen dd - 2)) with (List.length (0%Z :: lh :: ll :: dd) + 0)%nat
+          by (cbn [List.length]; unfold blen; lia).
+        change (0 :: lh :: ll :: dd ++ [eh; el]) with ((0 :: lh :: ll :: dd) ++ [eh; el]). rewrite nth_app_r. reflexivity. }
+      assert (N2 : nth (Z.to_nat (5 + blen dd - 1)) body 0 = el).
+      { unfold body. replace (Z.to_nat (5 + blen dd - 1)) with (List.length (0%Z :: lh :: ll :: dd) + 1)%nat
+          by (cbn [List.length]; unfold blen; lia).
+        change (0 :: lh :: ll :: dd ++ [eh; el]) with ((0 :: lh :: ll :: dd) ++ [eh; el]). rewrite nth_app_r. reflexivity. }
+      rewrite N1, N2. rewrite of_be2. unfold eh, el.
+      replace (n mod 65536 / 256 * 256 + n mod 65536 mod 256) with (n mod 65536) by (Z.div_mod_to_equations; lia).
+      apply rz_mod; lia.
+  - (* case 3E *)
+    pose proof (blen_nonneg data).
+    assert (Hdd : 1 <= blen (d0 :: data) <= 65535) by (rewrite blen_cons in *; lia).
+    set (dd := d0 :: data) in *.
+    rewrite (be2_bytes (blen dd)) by lia.
+    set (lh := blen dd / 256). set (ll := blen dd mod 256).
+    change ([cla; ins; p1; p2] ++ [0] ++ [lh; ll] ++ dd) with (cla :: ins :: p1 :: p2 :: 0 :: lh :: ll :: dd).
+    rewrite blen_ge4. cbn [nth skipn]. rewrite Hcla. unfold parse_lengths.
+    set (body := 0 :: lh :: ll :: dd).
+    assert (Hbl : blen body = 3 + blen dd) by (unfold body; rewrite !blen_cons; lia).
+    rewrite Hbl. change (nth 0 body 0) with 0. change (nth 1 body 0) with lh. change (nth 2 body 0) with ll.
+    assert (Hw : of_be [lh; ll] = blen dd) by (rewrite of_be2; unfold lh, ll; Z.div_mod_to_equations; lia).
+    rewrite Hw.
+    destruct (3 + blen dd =? 0) eqn:E0; [lia|]. destruct (3 + blen dd =? 1) eqn:E1; [lia|].
+    destruct ((3 + blen dd =? 1 + 0) && negb (0 =? 0)) eqn:E2; [lia|].
+    destruct ((3 + blen dd =? 2 + 0) && negb (0 =? 0)) eqn:E3; [lia|].
+    change (negb (0 =? 0)) with false. cbv iota.
+    destruct (3 + blen dd <? 3) eqn:E4; [lia|]. destruct (3 + blen dd =? 3) eqn:E5; [lia|].
+    destruct (3 + blen dd =? 3 + blen dd) eqn:E6; [|lia].
+    f_equal. f_equal.
+    replace (Z.to_nat 3) with 3%nat by reflexivity. unfold body. cbn [skipn].
+    unfold blen. rewrite Nat2Z.id. apply firstn_all.
+Qed.
